@@ -11,7 +11,8 @@ open Emboss.Fmt Driver
   `none` (the model says the Python raises), or `not-text` (the root handler did not
   return a string).
 * `TABLE` — evaluates the table obligations of Spec/Fmt.lean on the regenerated registry
-  (`tableTyped formatters`, `tableMatchesGrammar formatters grammar`): `ok`, or `bad …`
+  (`tableTyped formatters`, `tableMatchesGrammar formatters grammar`, `tableNormal formatters`):
+  `ok`, or `bad …`
   naming the first offending entries.
 * `SANITY <formatted tokens> <original tokens>` — each a `,`-separated list of
   `<hex symbol>:<hex text>` (`-` for the empty list).  Answer: `ok`, `differs <i>`,
@@ -97,12 +98,14 @@ def showEntry (e : String × List String × String × Bool) : String :=
 def tableReport : String :=
   let tbl := Emboss.Generated.FmtTable.formatters
   let g := Emboss.Generated.FmtTable.grammar
-  if tableTyped tbl && tableMatchesGrammar tbl g then "ok"
+  if tableTyped tbl && tableMatchesGrammar tbl g && tableNormal tbl then "ok"
   else
     let untyped := (tbl.filter (fun e => !checkEntry e)).take 3
     let undropped := (tbl.filter (fun e => !dropOK e)).take 3
     let layoutLhs := (tbl.filter (fun e => isLayoutSym e.1)).take 3
+    let unnormal := (tbl.filter (fun e => !normOK e)).take 3
     "bad grammar-match=" ++ toString (tableMatchesGrammar tbl g) ++
+      " layout-or-documentation-argument-used=[" ++ "; ".intercalate (unnormal.map showEntry) ++ "]" ++
       " untyped=[" ++ "; ".intercalate (untyped.map showEntry) ++ "]" ++
       " ignored-non-layout=[" ++ "; ".intercalate (undropped.map showEntry) ++ "]" ++
       " layout-lhs=[" ++ "; ".intercalate (layoutLhs.map showEntry) ++ "]"
@@ -111,13 +114,13 @@ def handle (line : String) : String :=
   match line.splitOn " " with
   | ["TABLE"] => tableReport
   | ["GLUE"] =>
-    "\t".intercalate ((gluedPairs Emboss.Generated.FmtTable.formatters Emboss.Generated.FmtTable.grammar).map
-      (fun p => p.1 ++ " " ++ p.2))
+    "\t".intercalate ((gluedPairs Emboss.Generated.FmtTable.formatters).map (fun p => p.1 ++ " " ++ p.2))
   | ["GLUECHECK"] =>
-    if gluedOK Emboss.Generated.FmtTable.formatters Emboss.Generated.FmtTable.grammar then "ok"
-    else "bad " ++ "\t".intercalate
-      (((gluedPairs Emboss.Generated.FmtTable.formatters Emboss.Generated.FmtTable.grammar).filter
-        (fun p => !allowedGlued.contains p)).map (fun p => p.1 ++ " " ++ p.2))
+    let tbl := Emboss.Generated.FmtTable.formatters
+    if gluedOK tbl then "ok"
+    else "bad fixpoints-reached=" ++ toString (fixpointsReached (resolved tbl)) ++
+      " not-audited=" ++ "\t".intercalate
+      (((gluedPairs tbl).filter (fun p => !allowedGlued.contains p)).map (fun p => p.1 ++ " " ++ p.2))
   | "FMT" :: iw :: items =>
     match iw.toNat?, parseItems items [] none with
     | some iw, some t =>
